@@ -164,7 +164,7 @@ def shard_fn(shard, nshards, seed, tier, exe, ndocs):
         cases.append((cid, doc_cmds(text)))
         meta[cid] = (text, value, origin, False)
         sh.count("exhaustive." + origin + ".strings", len(value))
-    results, crashes = core.run_script(exe, cases, tag="c01")
+    results, crashes = core.run_script(exe, cases, tag="c01", env=core.ambient_env(sh, shard))
     cmdmap = dict(cases)
     for cr in crashes:
         kind, frame = cr.summary()
